@@ -656,49 +656,114 @@ Section RootFacts.
     symmetry. apply root_eqb_spec. auto.
   Qed.
 
+  (* ---- Finalize *)
+  Lemma diff_at_finalized_keep : forall l fh h, fh <= h ->
+    diff_at (filter (fun x : N * diff => negb (fst x <? fh)) l) h = diff_at l h.
+  Proof.
+    induction l as [|[x d] l]; simpl; intros; auto.
+    destruct (x <? fh) eqn:E; simpl.
+    - apply N.ltb_lt in E. rewrite IHl; auto. destruct (x =? h) eqn:E2; auto. apply N.eqb_eq in E2. lia.
+    - rewrite IHl; auto.
+  Qed.
+  Lemma diff_at_finalized_gone : forall l fh h, h < fh ->
+    diff_at (filter (fun x : N * diff => negb (fst x <? fh)) l) h = None.
+  Proof.
+    induction l as [|[x d] l]; simpl; intros; auto.
+    destruct (x <? fh) eqn:E; simpl; auto.
+    apply N.ltb_ge in E. destruct (x =? h) eqn:E2; auto. apply N.eqb_eq in E2. lia.
+  Qed.
+
+  Lemma chain_firstn : forall diffs H l, Chain diffs H l -> forall m, Chain diffs H (firstn (S m) l).
+  Proof.
+    induction 1; intros m. - simpl. destruct m; constructor.
+    - destruct m; simpl. + constructor. + econstructor; eauto.
+  Qed.
+
+  Lemma chain_finalized : forall diffs fh H l, Chain diffs H l ->
+    (length l = 1%nat \/ (fh <= H /\ (length l <= N.to_nat (H - fh) + 2)%nat)) ->
+    Chain (filter (fun x : N * diff => negb (fst x <? fh)) diffs) H l.
+  Proof.
+    induction 1; intros C. - constructor.
+    - destruct C as [C|[C1 C2]]; [simpl in C; discriminate|].
+      econstructor; eauto. + rewrite diff_at_finalized_keep; auto.
+      + apply IHChain. simpl in *. destruct rest; [left; auto|].
+        right. simpl in *. split; lia.
+  Qed.
+
+  Theorem finalize_good : forall a H sts fh F, Good a H sts -> length sts = S (N.to_nat (H - F)) -> F <= H -> fh <= H ->
+    let F2 := N.max F (fh - 1) in
+    Good (finalize a fh) H (firstn (S (N.to_nat (H - F2))) sts) /\
+    length (firstn (S (N.to_nat (H - F2))) sts) = S (N.to_nat (H - F2)).
+  Proof.
+    intros a H sts fh F [[hist HI] [Ts [HH [Ch [s [rest [Es Eq]]]]]]] L HF Hfh F2.
+    assert (Len : length (firstn (S (N.to_nat (H - F2))) sts) = S (N.to_nat (H - F2))).
+    { rewrite firstn_length. unfold F2. lia. }
+    split; auto. unfold finalize. destruct (fh =? 0) eqn:Z.
+    - apply N.eqb_eq in Z. split; [eauto|]. split; auto. split; auto. split.
+      + apply chain_firstn; auto. + subst sts. exists s, (firstn (N.to_nat (H - F2)) rest). auto.
+    - apply N.eqb_neq in Z. split.
+      { exists hist. destruct HI as [T [K [I W]]]. split; [exact T|]. split; [exact K|]. split; [exact I | exact W]. }
+      split; [exact Ts|]. split; [exact HH|]. split.
+      + cbn [a_diffs]. apply chain_finalized. * apply chain_firstn; auto.
+        * rewrite Len. destruct (N.to_nat (H - F2)) eqn:Q; [left; auto|]. right. split; auto. unfold F2 in *. lia.
+      + subst sts. exists s, (firstn (N.to_nat (H - F2)) rest). auto.
+  Qed.
+
   (* ---- every sequence of blocks, reverts and restarts *)
   Definition fresh : appdb := {| a_state := []; a_tree := tree_empty; a_diffs := []; a_tree_state := None |}.
 
-  Inductive reach : appdb -> N -> Prop :=
-  | rc_fresh : reach fresh 0
-  | rc_block : forall a H txs c v expected a' r, reach a H -> Forall (tx_wf ukey) txs ->
+  (* reach a H F: the application is at height H; F = the lowest height it can still be rolled back to (everything
+     below the engine's finalised height has been pruned by Finalize).  The engine never finalises above its tip and
+     never restarts with a tip below what it finalised. *)
+  Inductive reach : appdb -> N -> N -> Prop :=
+  | rc_fresh : reach fresh 0 0
+  | rc_block : forall a H F txs c v expected a' r, reach a H F -> Forall (tx_wf ukey) txs ->
       exec_txs (a_state a) (H + 1) [] no_snaps txs = (c, v) -> H + 1 < 2 ^ 32 ->
-      commit a c (H + 1) (tree_root (a_tree a)) expected false = COk a' r -> reach a' (H + 1)
-  | rc_revert : forall a H expected a' r, reach a H ->
-      revert a H (tree_root (a_tree a)) expected = ROk a' r -> reach a' (H - 1)
-  | rc_restart : forall a H last lr a', reach a H ->
-      (init a last lr = IOk a' \/ init a last lr = IConflict a') -> reach a' last.
+      commit a c (H + 1) (tree_root (a_tree a)) expected false = COk a' r -> reach a' (H + 1) F
+  | rc_revert : forall a H F expected a' r, reach a H F ->
+      revert a H (tree_root (a_tree a)) expected = ROk a' r -> reach a' (H - 1) F
+  | rc_restart : forall a H F last lr a', reach a H F -> F <= last ->
+      (init a last lr = IOk a' \/ init a last lr = IConflict a') -> reach a' last F
+  | rc_finalize : forall a H F fh, reach a H F -> fh <= H -> reach (finalize a fh) H (N.max F (fh - 1)).
 
-  Theorem reach_good : forall a H, reach a H ->
-    exists sts, Good a H sts /\ length sts = S (N.to_nat H) /\ diff_at (a_diffs a) 0 = None.
+  Theorem reach_good : forall a H F, reach a H F ->
+    exists sts, Good a H sts /\ length sts = S (N.to_nat (H - F)) /\ F <= H /\ diff_at (a_diffs a) F = None.
   Proof.
     induction 1.
-    - exists [[]]. split; [apply fresh_good|]. auto.
-    - destruct IHreach as [sts [G [L D0]]].
+    - exists [[]]. split; [apply fresh_good|]. repeat split; auto. apply N.le_refl.
+    - destruct IHreach as [sts [G [L [HF D0]]]].
       assert (Cg : cache_good ukey (a_state a) c).
       { eapply block_cache_good; eauto. - apply empty_cache_good. - apply no_snaps_good. }
       destruct (commit_good _ _ _ _ _ _ _ G Cg H3 H4) as [G' _].
-      exists (a_state a' :: sts). split; auto. split. { simpl. rewrite L. lia. }
+      exists (a_state a' :: sts). split; auto. split. { simpl. rewrite L. lia. } split. { lia. }
       destruct G as [[hist HI] _].
       assert (Hp : root_eqb (tree_root (a_tree a)) (tree_root (a_tree a)) = true) by (apply root_eqb_spec; auto).
       destruct (commit_root_is_smt_of_state _ _ _ _ _ _ _ _ HI Cg Hp H4) as [ops [_ [_ [_ [_ [Ed _]]]]]].
       rewrite Ed. rewrite diff_at_put_other; auto. lia.
-    - destruct IHreach as [sts [G [L D0]]].
+    - destruct IHreach as [sts [G [L [HF D0]]]].
       destruct sts as [|s [|s' rest]]; simpl in L; try lia.
-      + assert (H = 0) by lia. subst. unfold StateRoot.revert in H1. rewrite D0 in H1. discriminate.
+      + assert (H = F) by lia. subst. unfold StateRoot.revert in H1. rewrite D0 in H1. discriminate.
       + destruct (revert_good a H s s' rest expected G) as [a'' [G'' [Ts'' [Df Rv]]]].
         rewrite Rv in H1.
         destruct (match expected with Some x => negb (root_eqb (tree_root (a_tree a'')) x) | None => false end);
           inversion H1; subst.
-        exists (s' :: rest). split; auto. split. { simpl in *. lia. } rewrite Df. auto.
-    - destruct IHreach as [sts [G [L D0]]].
+        exists (s' :: rest). split; auto. split. { simpl in *. lia. } split. { lia. } rewrite Df. auto.
+    - destruct IHreach as [sts [G [L [HF D0]]]].
       destruct (N.lt_ge_cases H last) as [Hlt|Hge].
-      + rewrite (init_behind _ _ _ _ lr G Hlt) in H1. destruct H1; discriminate.
+      + rewrite (init_behind _ _ _ _ lr G Hlt) in H2. destruct H2; discriminate.
       + destruct (init_recovers_to_engine_tip a H sts last lr G Hge) as [a2 [G2 [Df Ei]]]. { rewrite L. lia. }
         assert (a' = a2).
-        { rewrite Ei in H1. destruct (root_eqb (tree_root (a_tree a2)) lr); destruct H1 as [Q|Q]; inversion Q; auto. }
+        { rewrite Ei in H2. destruct (root_eqb (tree_root (a_tree a2)) lr); destruct H2 as [Q|Q]; inversion Q; auto. }
         subst a2. exists (skipn (N.to_nat (H - last)) sts). split; auto. split.
         { rewrite skipn_length, L. lia. }
-        rewrite Df. auto.
+        split; auto. rewrite Df. auto.
+    - destruct IHreach as [sts [G [L [HF D0]]]].
+      destruct (finalize_good a H sts fh F G L HF H1) as [G2 L2].
+      exists (firstn (S (N.to_nat (H - N.max F (fh - 1)))) sts). split; auto. split; auto. split. { lia. }
+      unfold finalize. destruct (fh =? 0) eqn:Z.
+      + apply N.eqb_eq in Z. subst. replace (N.max F (0 - 1)) with F by lia. auto.
+      + apply N.eqb_neq in Z. simpl. destruct (N.lt_ge_cases (N.max F (fh - 1)) fh).
+        * apply diff_at_finalized_gone; auto.
+        * rewrite diff_at_finalized_keep; auto. replace (N.max F (fh - 1)) with F by lia. auto.
   Qed.
 End RootFacts.
